@@ -2,7 +2,7 @@
 package fakes
 
 import (
-	"strings"
+	"strconv"
 	"time"
 	"unicode/utf8"
 
@@ -81,7 +81,16 @@ func (m *Metrics) key(name string, values []string) string {
 			panic("prometheus: label value is not valid UTF-8")
 		}
 	}
-	return m.prefix + name + "{" + strings.Join(all, "\x00") + "}"
+	return m.prefix + name + joinValues(all)
+}
+
+// joinValues is an injective rendering of a label tuple (length-prefixed).
+func joinValues(values []string) string {
+	out := "{"
+	for _, v := range values {
+		out += strconv.Itoa(len(v)) + ":" + v
+	}
+	return out + "}"
 }
 
 func (m *Metrics) String() string { return m.prefix }
@@ -169,7 +178,7 @@ func (m *Metrics) AddOrGetGaugeVec(name string, help string, labelNames []string
 // CounterValue returns the value of the counter whose full name (prefix+name)
 // matches and whose label values are exactly values.
 func (m *Metrics) CounterValue(fullName string, values ...string) uint64 {
-	k := fullName + "{" + strings.Join(values, "\x00") + "}"
+	k := fullName + joinValues(values)
 	if c, ok := m.reg.counters[k]; ok {
 		return c.V
 	}
@@ -177,7 +186,7 @@ func (m *Metrics) CounterValue(fullName string, values ...string) uint64 {
 }
 
 func (m *Metrics) GaugeValue(fullName string, values ...string) int64 {
-	k := fullName + "{" + strings.Join(values, "\x00") + "}"
+	k := fullName + joinValues(values)
 	if g, ok := m.reg.gauges[k]; ok {
 		return g.V
 	}
